@@ -4,6 +4,7 @@ import PigeonVerif.Spec.SpecProtocol
 import PigeonVerif.Model.WfgProtocol
 import PigeonVerif.Opt.OptProtocol
 import PigeonVerif.Model.ClassProtocol
+import PigeonVerif.Model.ToolProtocol
 open PV PV.Protocol
 
 partial def loop (spec wfg lrwf emit : Bool) (h : IO.FS.Stream) (out : IO.FS.Stream) (tab : Array CaseRange) : IO Unit := do
@@ -24,6 +25,11 @@ partial def loop (spec wfg lrwf emit : Bool) (h : IO.FS.Stream) (out : IO.FS.Str
     match parseLine ClassProtocol.classCase line with
     | .ok c => out.putStrLn (ClassProtocol.runClass c)
     | .error e => out.putStrLn s!"clsres 0 error {e}"
+    loop spec wfg lrwf emit h out tab
+  else if line.startsWith "tool " then
+    match parseLine ToolProtocol.toolCase line with
+    | .ok c => out.putStrLn (ToolProtocol.runTool c)
+    | .error e => out.putStrLn s!"toolres 0 error {e}"
     loop spec wfg lrwf emit h out tab
   else if line.startsWith "optv " then
     match parseLine OptProtocol.optCase line with
